@@ -88,6 +88,48 @@ func c20CheckType(c c20Type) engine.Result {
 			if pmt.IsPidForStreamWherePresentationLagsEbp(0x99) {
 				res.Failf("PMT|IsPidForStreamWherePresentationLagsEbp-absent", "absent pid reported true")
 			}
+			// the same queries on one object across removals (query, remove a stream, query again)
+			for rm := 0; rm < 3; rm++ {
+				pm2, err := psi.NewPMT(payload)
+				if err != nil {
+					break
+				}
+				for i := 0; i < 3; i++ {
+					pm2.IsPidForStreamWherePresentationLagsEbp(0x100 + i)
+				}
+				pm2.RemoveElementaryStreams([]int{0x100 + rm})
+				for i := 0; i < 3; i++ {
+					want := i != rm && c20Lags[sec.Streams[i].Type]
+					if got := pm2.IsPidForStreamWherePresentationLagsEbp(0x100 + i); got != want {
+						res.Failf("PMT|IsPidForStreamWherePresentationLagsEbp-after-removal", "types %#x,%#x,%#x, stream %d removed after a first round of queries: pid %#x reports %v want %v",
+							sec.Streams[0].Type, sec.Streams[1].Type, sec.Streams[2].Type, rm, 0x100+i, got, want)
+					}
+				}
+			}
+		}
+		// a stream that follows one with 300 bytes of descriptors (ES_info_length >= 256)
+		{
+			var big []ref.Desc
+			for i := 0; i < 20; i++ {
+				big = append(big, ref.Desc{Tag: 0x0A, Body: []byte{'e', 'n', 'g', byte(i)}}, ref.Desc{Tag: 0x52, Body: []byte{byte(i)}}, ref.Desc{Tag: 0x0E, Body: []byte{0xC0, 0x30, byte(i)}})
+			}
+			sec := ref.PMTSection{Program: 1, Version: 1, CurrentNext: true, PCRPID: 0x100,
+				Streams: []ref.Stream{{Type: 0x1B, PID: 0x100, Descs: big}, {Type: code, PID: 0x101}, {Type: 0x0F, PID: 0x102, Descs: []ref.Desc{{Tag: 0x0E, Body: []byte{0xC1, 0x86, 0xA0}}}}}}
+			pmt, err := psi.NewPMT(append(ref.Pointer(0), sec.Bytes()...))
+			if err != nil || len(pmt.ElementaryStreams()) != 3 {
+				res.Failf("NewPMT|large-ES_info", "type %#x after a stream with %d descriptor bytes: err=%v streams=%d", code, 20*15, err, len(pmt.ElementaryStreams()))
+			} else {
+				c20CheckPredicates(&res, "NewPMT-large-ES_info", code, pmt.ElementaryStreams()[1])
+				if got := pmt.IsPidForStreamWherePresentationLagsEbp(0x101); got != c20Lags[code] {
+					res.Failf("PMT|IsPidForStreamWherePresentationLagsEbp-large-ES_info", "type %#x: got %v", code, got)
+				}
+				if got := pmt.ElementaryStreams()[2].MaxBitRate(); got != 100000*400 {
+					res.Failf("NewPMT-large-ES_info|MaxBitRate", "stream after the large one: MaxBitRate()=%d want %d", got, 100000*400)
+				}
+				if got := pmt.ElementaryStreams()[0].MaxBitRate(); got != uint64(0x3000)*400 {
+					res.Failf("NewPMT-large-ES_info|MaxBitRate-first", "large stream: MaxBitRate()=%d want %d", got, uint64(0x3000)*400)
+				}
+			}
 		}
 	})
 	res.Nontrivial = 1
@@ -409,7 +451,7 @@ func init() {
 		Scenarios: []engine.ScenarioRunner{
 			&engine.Enum[c20Type]{
 				Name: "stream-types",
-				Rule: "all 256 stream_type codes through LookupPmtStreamType, NewPmtElementaryStream and a decoded 3-stream PMT (code at each position); every code is a distinct non-trivial case",
+				Rule: "all 256 stream_type codes through LookupPmtStreamType, NewPmtElementaryStream and a decoded 3-stream PMT (code at each position; the PMT-level query also after query/remove/query histories on one object, and behind a stream carrying 300 bytes of descriptors); every code is a distinct non-trivial case",
 				Gen: func(r *engine.Run, emit func(c20Type)) {
 					for c := 0; c < 256; c++ {
 						emit(c20Type{c})
